@@ -6,6 +6,7 @@ Families (all enumerated completely, see DESIGN.md C01):
   everyk   k = 1..32 x |prefix| in {1,2,5}: pad.prefix.kmer.pad and reverse complements, truncated by one letter
   colls    ordered pairs (thorough: triples) of 12 short contigs, as list / tuple / generator / bare sequence
   layout   motifs embedded behind / before pads of 0..257 letters (position-keyed shortcuts)
+  histories every sequence of valid / failing calls in one thread (state kept between calls)
 Each case: 4 sequence types x {SetAccumulator, ArrayAccumulator (k<=8), default} on the real calc_signature,
 compared with refmodel.ref_signature (values, strict order, dtype).
 """
@@ -48,6 +49,8 @@ def plan(tier, seed):
 	tasks.append(('t_colls', dict(triples=(tier != 'quick'))))
 	for kind in range(3):
 		tasks.append(('t_layout', dict(padkind=kind)))
+	for ki in range(3):
+		tasks.append(('t_histories', dict(ki=ki, depth=3 if tier == 'quick' else 4)))
 	return tasks
 
 
@@ -222,6 +225,59 @@ def t_colls(triples):
 	return sh
 
 
+def t_histories(ki, depth, only=None):
+	"""Call histories in one thread: every sequence (to the depth bound) of calls {valid X, valid Y, valid Z (empty result), a call that raises
+	after some sequences of its collection were already searched (generator that raises / element of a wrong type / non-ASCII text)}.
+	Every valid call must return the signature of ITS input, whatever happened before (state kept between calls, e.g. a recycled accumulator)."""
+	from gambit.sigs.calc import calc_signature
+	sh = Shard()
+	k, prefix = [(3, b'AT'), (11, b'ATGAC'), (12, b'ATGAC')][ki]
+	ks = _specs(k, prefix)
+	P = prefix.decode()
+	def block(i):
+		return (P + R.ref_kmer((i * 2654435761) % 4 ** k, k).decode()).encode()
+	X = [b'GG' + block(1) + b'CC' + block(2), block(3)]
+	Y = [block(4) + b'G' + block(5)]
+	Z = [b'GGGGCCCC']
+	poison = [block(6) + b'CC', block(7)]      # searched before the failure happens
+
+	def gen_raises():
+		yield from poison
+		raise RuntimeError('input stream broke')
+	events = {
+		'X': lambda: X, 'Y': lambda: Y, 'Z': lambda: Z,
+		'fail-generator': gen_raises,
+		'fail-wrong-type': lambda: poison + [12345],
+		'fail-non-ascii-text': lambda: [s.decode() for s in poison] + ['AT\u00e9GAC'],
+	}
+	exp = {n: R.ref_signature(k, prefix, v) for n, v in (('X', X), ('Y', Y), ('Z', Z))}
+	if not exp['X'] or not exp['Y'] or exp['Z'] or not R.ref_signature(k, prefix, poison):
+		from mc.core import HarnessError
+		raise HarnessError('history fixture is degenerate')
+	for hist in ([tuple(only)] if only else itertools.product(list(events), repeat=depth)):
+		if not only and not any(e in exp for e in hist[1:]):
+			continue
+		for step, ev in enumerate(hist):
+			sh.evals += 1
+			try:
+				got = calc_signature(ks, events[ev]())
+				err = None
+			except Exception as e:
+				got, err = None, e
+			case = dict(k=k, prefix=prefix, seqs=[], history=list(hist[:step + 1]))
+			if ev in exp:
+				if err is not None or got.tolist() != exp[ev] or str(got.dtype) != R.ref_dtype(k):
+					sh.violation('signature-depends-on-earlier-calls', case, exp[ev], repr(err) if err else got.tolist())
+					break
+				if step and any(h.startswith('fail') for h in hist[:step]):
+					sh.count('valid_calls_after_a_failed_call')
+					sh.nontrivial += 1
+			elif err is None:
+				sh.count('failing_inputs_that_did_not_raise_not_judged')
+	sh.sample(dict(family='histories', k=k, prefix=P, events=list(events), last_history=list(hist)))
+	return sh
+
+
 def motifs(k, p):
 	km = (b'CAGT' * 9)[:k]
 	bad = b'N' + km[1:]
@@ -250,7 +306,7 @@ def t_layout(padkind):
 
 def finalize(agg, tier):
 	for c in ('cases_with_forward_occurrence', 'cases_with_reverse_occurrence', 'cases_with_dropped_occurrence',
-	          'cases_with_overlapping_occurrences', 'cases_where_concatenation_would_differ'):
+	          'cases_with_overlapping_occurrences', 'cases_where_concatenation_would_differ', 'valid_calls_after_a_failed_call'):
 		agg.require(c, 100)
 
 
@@ -258,6 +314,9 @@ def replay(case, kind=None):
 	sh = Shard()
 	import numpy as np
 	from gambit.sigs.calc import calc_signature
+	if 'history' in case:
+		ki = [(3, b'AT'), (11, b'ATGAC'), (12, b'ATGAC')].index((case['k'], case['prefix']))
+		return t_histories(ki, len(case['history']), only=case['history']).violations[:1]
 	if kind == 'signature-collection':
 		ks = _specs(case['k'], case['prefix'])
 		seqs = case['seqs']
